@@ -25,7 +25,7 @@ prop("C11", "exploration",
      "reads and acknowledges; then the peer's acknowledgements for this tube are withheld (dropped by the fake network while the junk lasts) and "
      "0-12 further frames are written, which stay outstanding. Spread over the drawn frames, 1-6 RUNS OF 1-8 ACKNOWLEDGEMENT FRAMES repeat the last "
      "acknowledgement number the local sender really received (duplicates) or a neighbour (+-1, +-2), with and without payload and RTR, numbered "
-     "with the frame number the tube expects next (+0/1/5); half of the drawn frames are aimed at this tube as well. The peer owns this tube and "
+     "with the frame number the tube expects next (+0/1/5); the drawn frames and all other dimensions stay as they are. The peer owns this tube and "
      "may ruin it: no new clause, the usual ones apply (labels history:ack>20:1-3-outstanding etc. show the coverage). "
      "Oracle: no panic, also not in a timer/sender goroutine during the 3 virtual minutes the case keeps running after Stop; the "
      "control tube moves fresh data both ways during and after the junk; Muxer.Stop returns within 10 virtual seconds; when Stop has "
